@@ -1,6 +1,6 @@
 #!/bin/bash
 # build.sh <variant> : out-of-tree build of /repo's *working tree* into /verif/build/<variant>
-# variants: san | fuzz | fast | tsan | cov (gcov instrumentation, measurement only: py/covreport.py) | off (guard off, gcc, with tests -> used by baseline_off_cmd)
+# variants: san | fuzz | fast | tsan | ivz / ivp (automatic variables zero- / pattern-initialised: C08's uninitialised-read differential) | cov (gcov instrumentation, measurement only: py/covreport.py) | off (guard off, gcc, with tests -> used by baseline_off_cmd)
 set -e
 V=${1:?variant}
 REPO=${VERIF_REPO:-/repo}
@@ -12,6 +12,8 @@ case "$V" in
   fuzz) CXX=clang++; CC=clang; FL="-O1 -g -fno-omit-frame-pointer -fsanitize=fuzzer-no-link,address,undefined -fno-sanitize-recover=undefined -D_GLIBCXX_ASSERTIONS $GUARD"; TESTS=OFF;;
   fast) CXX=g++; CC=gcc; FL="-O2 -g $GUARD"; TESTS=OFF;;
   tsan) CXX=clang++; CC=clang; FL="-O1 -g -fno-omit-frame-pointer -fsanitize=thread $GUARD"; TESTS=OFF;;
+  ivz)  CXX=clang++; CC=clang; FL="-O1 -g -ftrivial-auto-var-init=zero -enable-trivial-auto-var-init-zero-knowing-it-will-be-removed-from-clang $GUARD"; TESTS=OFF;;
+  ivp)  CXX=clang++; CC=clang; FL="-O1 -g -ftrivial-auto-var-init=pattern $GUARD"; TESTS=OFF;;
   cov)  CXX=g++; CC=gcc; FL="-O0 -g --coverage $GUARD"; TESTS=OFF;;
   off)  CXX=g++; CC=gcc; FL="-O2 -g"; TESTS=ON;;
   *) echo "unknown variant $V" >&2; exit 2;;
